@@ -57,6 +57,8 @@ def ljust(s, w):
 
 def title_line(t):
     """t: dict(number, method, design (or None), goal (or None), ids = 6 ints)"""
+    if t.get('short'):
+        return 'TABLE NO. ' + rjust(str(t['number']), 5) + '\n'
     s = 'TABLE NO. ' + rjust(str(t['number']), 5) + ': ' + t['method']
     if t.get('design') is not None:
         s += ': ' + t['design']
@@ -87,8 +89,10 @@ def render_table(t):
     s = ''
     if t.get('title') is not None:
         s += title_line(t['title'])
-    s += label_line(t['labels'])
-    rep = t.get('repeat', 0)
+    show = t.get('showlabels', True)
+    if show:
+        s += label_line(t['labels'])
+    rep = t.get('repeat', 0) if show else 0
     for i, r in enumerate(t['rows']):
         if rep and i > 0 and i % rep == 0:
             s += label_line(t['labels'])
